@@ -40,8 +40,12 @@ Inductive stsc_call :=
 (* `&StscBox{}` *)
 Definition stsc_empty : stsc_box := mkStsc [] 0 [].
 
-(* SetSingleSampleDescriptionID: `b.singleSampleDescriptionID = x; b.SampleDescriptionID = nil` *)
-Definition stsc_set_single (b : stsc_box) (x : N) : stsc_box := mkStsc (sc_entries b) x [].
+(* SetSingleSampleDescriptionID — the repaired text (cb02a8f): `if x == 0 { return }` (0 is not an id: ignored), then
+   `b.singleSampleDescriptionID = x; b.SampleDescriptionID = nil` *)
+Definition stsc_set_single (b : stsc_box) (x : N) : stsc_box :=
+  if x =? 0 then b else mkStsc (sc_entries b) x [].
+(* as pinned (f87a9e4): 0 was stored, leaving entries with neither a single id nor an id slice *)
+Definition stsc_set_single_pinned (b : stsc_box) (x : N) : stsc_box := mkStsc (sc_entries b) x [].
 
 Definition stsc_call_res (b : stsc_box) (c : stsc_call) : res stsc_box :=
   match c with
@@ -49,22 +53,32 @@ Definition stsc_call_res (b : stsc_box) (c : stsc_call) : res stsc_box :=
   | SSetSingle x => Ok (stsc_set_single b x)
   end.
 
-(* an AddEntry that returns its error (first entry with firstChunk != 1) leaves the box as it was *)
+(* an AddEntry that returns its error (description id 0; first entry with firstChunk != 1) leaves the box as it was *)
 Definition stsc_step (b : stsc_box) (c : stsc_call) : stsc_box :=
   match stsc_call_res b c with Ok b' => b' | _ => b end.
 
 Definition stsc_run (b : stsc_box) (calls : list stsc_call) : stsc_box := fold_left stsc_step calls b.
 
+(* the same history on the pinned text of the two methods (for the refuted statement only) *)
+Definition stsc_step_pinned (b : stsc_box) (c : stsc_call) : stsc_box :=
+  match c with
+  | SAdd fc sp sdi => match stsc_add_entry_pinned b fc sp sdi with Ok b' => b' | _ => b end
+  | SSetSingle x => stsc_set_single_pinned b x
+  end.
+Definition stsc_run_pinned (b : stsc_box) (calls : list stsc_call) : stsc_box := fold_left stsc_step_pinned calls b.
+
 (* the file-level table (first chunk, samples per chunk, description id) a history describes:
-   AddEntry appends a row (refused as first row unless firstChunk = 1), SetSingle... overwrites the id column *)
+   AddEntry appends a row (refused for id 0, and as first row unless firstChunk = 1), SetSingle... overwrites the id
+   column (ignored for id 0) *)
 Definition stsc_table_step (raw : list (N * N * N)) (c : stsc_call) : list (N * N * N) :=
   match c with
   | SAdd fc sp sdi =>
+    if sdi =? 0 then raw else
     match raw with
     | [] => if fc =? 1 then [(fc, sp, sdi)] else []
     | _ => raw ++ [(fc, sp, sdi)]
     end
-  | SSetSingle x => map (fun r => (fst r, x)) raw
+  | SSetSingle x => if x =? 0 then raw else map (fun r => (fst r, x)) raw
   end.
 Definition stsc_table (raw0 : list (N * N * N)) (calls : list stsc_call) : list (N * N * N) :=
   fold_left stsc_table_step calls raw0.
@@ -97,7 +111,8 @@ Definition stsc_of_table (raw : list (N * N * N)) : stsc_box :=
 (* ---------- boolean hypotheses of the builder theorems ---------- *)
 Definition nz (x : N) : bool := negb (x =? 0).
 
-(* sample description ids are 1-based (DecodeStscSR refuses 0; AddEntry / SetSingle... do not look) *)
+(* sample description ids are 1-based (DecodeStscSR and, since cb02a8f, AddEntry refuse 0, SetSingle... ignores it):
+   a call with a proper id.  No theorem needs it any more; the driver reports how many calls of a case fail it *)
 Definition stsc_call_ok (c : stsc_call) : bool :=
   match c with SAdd _ _ sdi => nz sdi | SSetSingle x => nz x end.
 
